@@ -54,9 +54,10 @@ func (b *BoundedCachedCompressors) AcquireGzipWriter() *gzip.Writer {
 // ReleaseGzipWriter accepts a writer (does not have to be one that was cached)
 // only when the cache has room for it. It will ignore it otherwise.
 func (b *BoundedCachedCompressors) ReleaseGzipWriter(w *gzip.Writer) {
-	// forget the unmanaged ones
-	if len(b.gzipWriters) < b.writersCapacity {
-		b.gzipWriters <- w
+	// forget the unmanaged ones ; never block when the cache is (or just became) full
+	select {
+	case b.gzipWriters <- w:
+	default:
 	}
 }
 
@@ -75,9 +76,10 @@ func (b *BoundedCachedCompressors) AcquireGzipReader() *gzip.Reader {
 // ReleaseGzipReader accepts a reader (does not have to be one that was cached)
 // only when the cache has room for it. It will ignore it otherwise.
 func (b *BoundedCachedCompressors) ReleaseGzipReader(r *gzip.Reader) {
-	// forget the unmanaged ones
-	if len(b.gzipReaders) < b.readersCapacity {
-		b.gzipReaders <- r
+	// forget the unmanaged ones ; never block when the cache is (or just became) full
+	select {
+	case b.gzipReaders <- r:
+	default:
 	}
 }
 
@@ -96,8 +98,9 @@ func (b *BoundedCachedCompressors) AcquireZlibWriter() *zlib.Writer {
 // ReleaseZlibWriter accepts a writer (does not have to be one that was cached)
 // only when the cache has room for it. It will ignore it otherwise.
 func (b *BoundedCachedCompressors) ReleaseZlibWriter(w *zlib.Writer) {
-	// forget the unmanaged ones
-	if len(b.zlibWriters) < b.writersCapacity {
-		b.zlibWriters <- w
+	// forget the unmanaged ones ; never block when the cache is (or just became) full
+	select {
+	case b.zlibWriters <- w:
+	default:
 	}
 }
